@@ -125,6 +125,12 @@ func Compress(msg *pb.XuperMessage) *pb.XuperMessage {
 
 // Decompress decompress msg
 func Decompress(msg *pb.XuperMessage) ([]byte, error) {
+	// a payload that encodes to zero bytes is never compressed, and its MsgInfo
+	// comes back as nil from the wire: it decodes to the empty payload
+	if msg != nil && msg.Header != nil && msg.Data != nil &&
+		len(msg.Data.MsgInfo) == 0 && !msg.Header.GetEnableCompress() {
+		return []byte{}, nil
+	}
 	if msg == nil || msg.Header == nil || msg.Data == nil || msg.Data.MsgInfo == nil {
 		return []byte{}, errors.New("param error")
 	}
